@@ -228,7 +228,7 @@ pub(super) async fn run_pty_task(handle: &TaskHandle, ctx: TaskRunContext) {
     };
 
     let pty_summary = match output_join {
-        Ok(_) => pty_writer.finish(),
+        Ok(_) => pty_writer.finish().await,
         Err(_) => TaskLogSummary::failed(
             pty_log.artifact_id.clone(),
             pty_log.path.clone(),
